@@ -418,15 +418,21 @@ def check_adjacency(ctx: Ctx) -> None:
                    "the word splitter inserts a space between adjacent tags; every text assembled from its tokens must pass through "
                    "denormalize_adjacent_tags before it is returned", where(f, r))
     # L7: the inserted separator must be distinguishable from what the input may contain
-    cbs = [f for f in nor.local_defs.values() if isinstance(f, FuncInfo)]
-    if not cbs:
+    from .callback import callback_of, callback_outcomes
+
+    cb = None
+    nflow = prog.flow(nor)
+    for n, c in nflow.all_calls():
+        if isinstance(c.func, ast.Attribute) and c.func.attr == "sub":
+            cb = cb or callback_of(prog, nor, c)
+    if cb is None:
         raise AnalysisError("callback of normalize_adjacent_tags not found")
+    # what the callback puts between the two delimiters: the literal parts of the strings it can return
     seps = set()
-    for r in ast.walk(cbs[0].node):
-        if isinstance(r, ast.Return) and isinstance(r.value, ast.BinOp):
-            for c in ast.walk(r.value):
-                if isinstance(c, ast.Constant) and isinstance(c.value, str):
-                    seps.add(c.value)
+    for parts in callback_outcomes(prog, cb, {}):
+        for part in parts:
+            if type(part) is str:
+                seps.add(part)
     reserved = all(s and all(ord(ch) < 32 and ch not in " \t\n\r\f\v" for ch in s) for s in seps) and bool(seps)
     ctx.ob("R-LOSSLESS-L7", f"{nor.qual} <-> {den.qual} :: inserted separator is reserved", reserved,
            f"normalize inserts {sorted(seps)!r} between adjacent tags and denormalize deletes any single space between a closing and an "
